@@ -25,6 +25,8 @@ type c15Params struct {
 	NilWrite     bool `json:"nil_write"`
 	MissingIndex bool `json:"missing_index"`
 	Prefix       int  `json:"prefix_steps"` // the first Prefix steps populate a writable instance
+	BlankDrive   bool `json:"blank_drive,omitempty"`
+	BlankBlocks  int  `json:"blank_blocks,omitempty"`
 	WrongKey     bool `json:"wrong_key"`    // the read-only instance holds a different private key / signature key
 }
 
@@ -82,6 +84,38 @@ func c15Run(f failer, cfg world.Cfg, p c15Params, next func(i int, mr *hist.MRun
 			failf(f, "cannot construct the %s instance: %v", name, err)
 		}
 		return r
+	}
+	if p.BlankDrive {
+		// a drive that exists but holds nothing (no bytes, or zero blocks only): a read-only
+		// instance may refuse to start, but leaves the drive and the (empty) index as they are
+		d := filepath.Join(side, "blank")
+		_ = os.MkdirAll(filepath.Join(d, "drv"), 0700)
+		drv, db := filepath.Join(d, "drv", "drive.tar"), filepath.Join(d, "index.sqlite")
+		blank := make([]byte, 512*p.BlankBlocks)
+		_ = os.WriteFile(drv, blank, 0600)
+		var w *world.World
+		var err error
+		checkObs(f, hist.Call("read-only over a blank drive", func() {
+			w, err = world.New(cfg, world.Opts{Dir: d, Drive: drv, DB: db, ReadOnly: true, NilWrite: p.NilWrite})
+		}), "open a blank drive read-only")
+		if err != nil {
+			failf(f, "cannot construct: %v", err)
+		}
+		after, _ := os.ReadFile(drv)
+		rows, _ := observe.IndexDump(db)
+		w.Close()
+		if !bytes.Equal(after, blank) {
+			failf(f, "opening a blank drive (%d zero blocks) read-only changed it to %d bytes (Initialize err=%v)", p.BlankBlocks, len(after), w.InitErr)
+		}
+		if len(rows) != 0 {
+			failf(f, "opening a blank drive read-only put %d rows into the index (Initialize err=%v)", len(rows), w.InitErr)
+		}
+		live.S.Class("variant:blank-drive")
+		live.S.Case(cfg.String(), true, live.J.Digest(), func() interface{} {
+			return map[string]interface{}{"cfg": cfg.String(), "params": p}
+		})
+		live.S.Flush()
+		return
 	}
 	tapeBefore, _ := os.ReadFile(base.W.Drive)
 	ro := mk("ro", true)
@@ -359,6 +393,9 @@ func TestC15(t *testing.T) {
 	rapid.Check(t, func(t *rapid.T) {
 		cfg := hist.DrawCfg(t, 60, nil)
 		p := c15Params{NilWrite: rapid.Bool().Draw(t, "nil_write"), MissingIndex: rapid.Bool().Draw(t, "missing_index"), Prefix: rapid.IntRange(0, 10).Draw(t, "prefix")}
+		if rapid.IntRange(0, 19).Draw(t, "blank-drive") == 0 {
+			p.BlankDrive, p.BlankBlocks = true, rapid.SampledFrom([]int{0, 0, 2, 20, 40}).Draw(t, "blank-blocks")
+		}
 		if p.MissingIndex && (cfg.Encryption != "" || cfg.Signature != "") && rapid.IntRange(0, 2).Draw(t, "wrongkey") == 0 {
 			p.WrongKey = true
 		}
